@@ -219,6 +219,10 @@ pub enum Decision {
     /// (`in_body`), flush, then close the connection gracefully (FIN, not RST: TCP delivers the head
     /// before the EOF, so the peer necessarily sees the 2xx before the close). gRPC: a plain acknowledgement
     AckThenClose { chunked: bool, in_body: bool },
+    /// Answer normally and completely (200 / grpc-status 0), THEN close the established connection
+    /// (`reset`: RST, else FIN) - a proxy's idle timeout, a collector restart: the peer's next request
+    /// finds its cached connection dead
+    AckThenDrop { reset: bool },
     /// HTTP: respond with this non-2xx status. gRPC: that `:status` without any `grpc-status`
     Status(u16),
     /// gRPC: respond with this non-zero `grpc-status`
@@ -238,7 +242,11 @@ pub enum Decision {
 
 impl Decision {
     pub fn is_ack(self) -> bool {
-        matches!(self, Decision::Ack(_) | Decision::HoldAck(_) | Decision::DelayAck(_) | Decision::AckThenClose { .. })
+        matches!(self, Decision::Ack(_) | Decision::HoldAck(_) | Decision::DelayAck(_) | Decision::AckThenClose { .. } | Decision::AckThenDrop { .. })
+    }
+
+    pub fn is_ack_then_drop(self) -> bool {
+        matches!(self, Decision::AckThenDrop { .. })
     }
 
     pub fn is_ack_then_close(self) -> bool {
@@ -253,7 +261,7 @@ impl Decision {
     pub fn breaks_connection(self) -> bool {
         matches!(
             self,
-            Decision::Stall | Decision::StallAt(..) | Decision::DropOnAccept | Decision::DropBeforeBody | Decision::DropAfterRead | Decision::AckThenClose { .. }
+            Decision::Stall | Decision::StallAt(..) | Decision::DropOnAccept | Decision::DropBeforeBody | Decision::DropAfterRead | Decision::AckThenClose { .. } | Decision::AckThenDrop { .. }
         )
     }
 
@@ -288,6 +296,7 @@ impl Decision {
             Decision::HoldAck(_) => "hold-ack".into(),
             Decision::DelayAck(_) => "delay-ack".into(),
             Decision::AckThenClose { chunked, in_body } => format!("ack200-{}-then-close-{}", if chunked { "chunked" } else { "content-length" }, if in_body { "inside-the-body" } else { "before-the-body" }),
+            Decision::AckThenDrop { reset } => format!("ack200-then-connection-{}", if reset { "reset" } else { "closed" }),
             Decision::Status(c) => format!("status{}", c),
             Decision::GrpcStatus(c, GrpcForm::Trailers) => format!("grpc{}", c),
             Decision::GrpcStatus(c, GrpcForm::TrailersOnly) => format!("grpc{}-trailers-only", c),
@@ -304,6 +313,7 @@ impl Decision {
         match self {
             Decision::Ack(_) | Decision::HoldAck(_) | Decision::DelayAck(_) => "ack",
             Decision::AckThenClose { .. } => "ack-then-close",
+            Decision::AckThenDrop { .. } => "ack-then-idle-connection-closed",
             Decision::Status(_) => "non-2xx",
             Decision::GrpcStatus(_, GrpcForm::Trailers) => "grpc-status",
             Decision::GrpcStatus(_, GrpcForm::TrailersOnly) => "grpc-status-trailers-only",
@@ -1194,6 +1204,7 @@ async fn serve_http1(shared: Arc<Shared>, ep: Arc<Endpoint>, mut stream: TcpStre
                 200
             }
             Decision::Ack(c) => c,
+            Decision::AckThenDrop { .. } => 200,
             Decision::Status(c) => c,
             Decision::GrpcStatus(..) => 503,
             Decision::DropOnAccept | Decision::DropBeforeBody => unreachable!(),
@@ -1223,10 +1234,23 @@ async fn serve_http1(shared: Arc<Shared>, ep: Arc<Endpoint>, mut stream: TcpStre
         }
         .await;
         match res {
-            Ok(()) => shared.update(idx, |r| {
-                r.responded = Some(stamp());
-                r.done = r.responded;
-            }),
+            Ok(()) => {
+                shared.update(idx, |r| {
+                    r.responded = Some(stamp());
+                    r.done = r.responded;
+                });
+                if let Decision::AckThenDrop { reset } = decision {
+                    // the answer is complete and flushed: now the established connection goes away
+                    if reset {
+                        set_linger0(stream.as_raw_fd());
+                    } else {
+                        let _ = stream.shutdown().await;
+                    }
+                    drop(stream);
+                    shared.close_conn(conn, true);
+                    return;
+                }
+            }
             Err(e) => {
                 shared.update(idx, |r| {
                     r.io_note = Some(format!("writing the response failed: {}", e));
@@ -1256,10 +1280,17 @@ async fn serve_h2(shared: Arc<Shared>, ep: Arc<Endpoint>, stream: TcpStream, con
         }
     };
     let kill = Arc::new(Notify::new());
+    let close = Arc::new(Notify::new());
     let mut first = true;
     loop {
         tokio::select! {
             _ = shutdown.changed() => { shared.close_conn(conn, true); return }
+            _ = close.notified() => {
+                // a plain close (FIN)
+                drop(h2);
+                shared.close_conn(conn, true);
+                return
+            }
             _ = kill.notified() => {
                 // `fd` is still owned by `h2` here, so it is valid
                 set_linger0(fd);
@@ -1271,7 +1302,7 @@ async fn serve_h2(shared: Arc<Shared>, ep: Arc<Endpoint>, stream: TcpStream, con
                 Some(Ok((req, respond))) => {
                     let (seq, decision) = ep.next_decision(first);
                     first = false;
-                    tokio::spawn(handle_h2(shared.clone(), ep.clone(), conn, seq, decision, req, respond, kill.clone()));
+                    tokio::spawn(handle_h2(shared.clone(), ep.clone(), conn, seq, decision, req, respond, kill.clone(), close.clone()));
                 }
                 Some(Err(_)) | None => { shared.close_conn(conn, false); return }
             }
@@ -1289,6 +1320,7 @@ async fn handle_h2(
     req: http::Request<h2::RecvStream>,
     mut respond: h2::server::SendResponse<bytes::Bytes>,
     kill: Arc<Notify>,
+    close: Arc<Notify>,
 ) {
     let mut shutdown = shared.shutdown.subscribe();
     let (parts, mut body) = req.into_parts();
@@ -1383,7 +1415,7 @@ async fn handle_h2(
             });
             return;
         }
-        Decision::Ack(_) | Decision::HoldAck(_) | Decision::DelayAck(_) | Decision::AckThenClose { .. } => {
+        Decision::Ack(_) | Decision::HoldAck(_) | Decision::DelayAck(_) | Decision::AckThenClose { .. } | Decision::AckThenDrop { .. } => {
             match decision {
                 Decision::HoldAck(max) => wait_gate(&shared, max).await,
                 Decision::DelayAck(ms) => tokio::time::sleep(Duration::from_millis(ms as u64)).await,
@@ -1428,10 +1460,21 @@ async fn handle_h2(
         Decision::DropOnAccept | Decision::DropBeforeBody => unreachable!(),
     };
     match result {
-        Ok(()) => shared.update(idx, |r| {
-            r.responded = Some(stamp());
-            r.done = r.responded;
-        }),
+        Ok(()) => {
+            shared.update(idx, |r| {
+                r.responded = Some(stamp());
+                r.done = r.responded;
+            });
+            if let Decision::AckThenDrop { reset } = decision {
+                // give the queued response frames time to leave, then the connection goes away
+                tokio::time::sleep(Duration::from_millis(40)).await;
+                if reset {
+                    kill.notify_one();
+                } else {
+                    close.notify_one();
+                }
+            }
+        }
         Err(e) => shared.update(idx, |r| {
             r.io_note = Some(format!("sending the response failed: {}", e));
             r.done = Some(stamp());
